@@ -1,14 +1,19 @@
 import Std.Data.HashMap
 import MxV.Model.Msimple
 import MxV.Model.Mfull
+import MxV.Model.Element
+import MxV.Model.Serialize
+import MxV.Gen.Strs
 import MxV.Gen.Templates
+import MxV.Gen.Attrs
+import MxV.Gen.Elements
 import MxV.Gen.Values
 /-! Line-protocol driver for the executable models (Mathlib-free; built as `lean_exe mxdriver`).
-    One operation per input line, one canonical observation line per operation. -/
-open Std
+    One operation per input line, one canonical observation line per operation.
+    Matcher answers have the form `<Mfull>|<Msimple or ->`. -/
+open Std Values
 
-
-/-! ### value encoding on the wire -/
+/-! ### wire encoding -/
 def hexVal (c : Char) : Nat :=
   if c.isDigit then c.toNat - '0'.toNat else if 'a' ≤ c && c ≤ 'f' then c.toNat - 'a'.toNat + 10 else 0
 
@@ -25,7 +30,6 @@ def hexDigit (n : Nat) : Char := if n < 10 then Char.ofNat (48 + n) else Char.of
 def tohex (s : String) : String :=
   String.ofList (s.toUTF8.toList.flatMap fun b => [hexDigit (b.toNat / 16), hexDigit (b.toNat % 16)])
 
-open Values in
 def parseVal (t : String) : Option PyVal :=
   if t == "none" then some .none
   else if t == "nan" then some .fnan
@@ -41,35 +45,89 @@ def parseVal (t : String) : Option PyVal :=
       | _, _ => none
     | _ => none
 
+def encVal : PyVal → String
+  | .none => "none" | .fnan => "nan" | .finf n => if n then "-inf" else "inf"
+  | .str s => "s:" ++ tohex s | .int z => s!"i:{z}" | .bool b => if b then "b:1" else "b:0"
+  | .float n m e r => s!"f:{if n then "-" else "+"}:{m}:{e}:{tohex r}"
 
-structure Inst where
-  tkey : Nat
-  p : Particle
-  chk : Bool
-  kids : Msimple.Kids          -- Msimple state (meaningful while `tame`)
-  tame : Bool
-  full : Mfull.Arena           -- Mfull state (checked instances)
-
-structure St where
-  insts : HashMap Nat Inst := {}
-
+/-! ### tables -/
 def lookupT (k : Nat) : List (Nat × Particle) → Option Particle
   | [] => none
   | (k', v) :: r => if k == k' then some v else lookupT k r
 
-def joinNat (l : List Nat) : String := ",".intercalate (l.map toString)
+def strOf (i : Nat) : String := Gen.strs[i]!
+def dropPrefix (s : String) (n : Nat) : String := String.ofList (s.toList.drop n)
 
+def attrTable (tk : Nat) : Option Element.Tbl :=
+  (Gen.implAttrs.find? (·.1 == tk)).map fun r =>
+    r.2.1.map fun a => (dropPrefix (strOf a.name) 2, a.type, a.required)
+
+/-- the exception the library raises when the (broken) row `key` is used: `K:?NameError` … -/
+def brokenRowError (tk : Nat) (key : String) : Option String :=
+  match Gen.implAttrs.find? (·.1 == tk) with
+  | some r => (r.2.1.find? fun a => a.broken && dropPrefix (strOf a.name) 2 == Element.normKey key).map
+      fun a => dropPrefix (strOf a.type) 3
+  | none => none
+
+def tableBroken (tk : Nat) : Bool :=
+  match Gen.implAttrs.find? (·.1 == tk) with
+  | some r => r.2.1.any (·.broken)
+  | none => true
+
+/-- a row whose declaration object is missing altogether (xlink references): even reading its
+    name / required flag raises AttributeError in the library -/
+def tableDeclMissing (tk : Nat) : Bool :=
+  match Gen.implAttrs.find? (·.1 == tk) with
+  | some r => r.2.1.any fun a => a.broken && strOf a.name == "A:None"
+  | none => false
+
+def validateK (k : Nat) (v : PyVal) : Res :=
+  match lookupDef k Gen.simpleDefs with
+  | some d => validate Gen.valuesEnv 6 d v
+  | none => .typeError
+
+def reservedProps : List String := Gen.reservedProps.map fun i => dropPrefix (strOf i) 2
+
+structure EInfo where
+  cls : Nat
+  name : Nat
+  kind : Nat
+  tkey : Option Nat
+  akey : Option Nat
+  vkind : Nat
+  vtype : Nat
+
+def einfo (c : Nat) : Option EInfo :=
+  (Gen.elemInfo.find? (·.1 == c)).map fun (a, b, k, t, ak, vk, vt) => ⟨a, b, k, t, ak, vk, vt⟩
+
+/-! ### instances -/
+structure Inst where
+  info : Option EInfo          -- none: a bare matcher instance created with `new`
+  p : Particle
+  hasTree : Bool
+  chk : Bool
+  kids : Msimple.Kids          -- Msimple state (meaningful while `tame`); also the child list of tree-less / unchecked nodes
+  tame : Bool
+  full : Mfull.Arena           -- Mfull state (checked instances with a container)
+  value : PyVal := .str ""
+  attrs : Element.Store := []
+  kwargs : Element.Store := []
+  parent : Option Nat := none
+
+structure St where
+  insts : HashMap Nat Inst := {}
+
+def joinNat (l : List Nat) : String := ",".intercalate (l.map toString)
 def dedup (l : List Nat) : List Nat :=
   l.foldl (fun acc n => if acc.contains n then acc else acc ++ [n]) []
 
-/-- observation of the Msimple state -/
+def usesMatcher (i : Inst) : Bool := i.chk && i.hasTree
+
 def obsSimple (i : Inst) : String :=
-  let ord := if i.chk then Msimple.ordered i.p i.kids else i.kids
-  let req := if i.chk then Msimple.required i.p i.kids else []
+  let ord := if usesMatcher i then Msimple.ordered i.p i.kids else i.kids
+  let req := if usesMatcher i then Msimple.required i.p i.kids else []
   s!"o={joinNat (Msimple.ids ord)} u={joinNat (Msimple.ids i.kids)} r={joinNat req}"
 
-/-- observation of the Mfull state: same call order as the harness (ordered view, then the
-    required-names check, which rewrites flags) -/
 def obsFull (a : Mfull.Arena) : String × Mfull.Arena :=
   let (r, a1) := Mfull.run a Mfull.orderedChildren
   match r with
@@ -81,9 +139,6 @@ def obsFull (a : Mfull.Arena) : String × Mfull.Arena :=
       | .error e => "err:" ++ e.str
     (s!"o={joinNat ord} u={joinNat a2.unordered} r={rs}", a2)
 
-def resS {α} : Except Msimple.Err α → String
-  | .ok _ => "ok"
-  | .error e => "err:" ++ e.str
 def resF {α} : Except Mfull.Err α → String
   | .ok _ => "ok"
   | .error e => "err:" ++ e.str
@@ -93,8 +148,160 @@ def parseFwd (toks : List String) : Option Int :=
   | [f] => f.toInt?
   | _ => none
 
-/-- answer format: `<Mfull line>|<Msimple line or ->` -/
 def both (f s : String) : String := f ++ "|" ++ s
+
+/-- set_attributes / value validation of one element -/
+def valueCheck (e : EInfo) (v : PyVal) : Res :=
+  if e.vkind == 2 then .ok else validateK e.vtype v
+
+def setAttrE (e : EInfo) (s : Element.Store) (key : String) (v : PyVal) : Except Element.AErr Element.Store :=
+  if e.kind == 0 then
+    -- simple-typed element: any non-empty attribute dict is refused
+    .error .wrongAttribute
+  else match e.akey.bind attrTable with
+    | some t => Element.setAttr validateK t s key v
+    | none => .error .wrongAttribute
+
+def mkInst (e : EInfo) (chk : Bool) (v : PyVal) : Inst :=
+  match e.tkey.bind (fun t => lookupT t Gen.implTemplates) with
+  | some p => { info := some e, p := p, hasTree := true, chk := chk, kids := [], tame := Msimple.isTame p,
+                full := Mfull.newInstance p, value := v }
+  | none => { info := some e, p := .seq 1 (some 1) [], hasTree := false, chk := chk, kids := [], tame := false,
+              full := {}, value := v }
+
+/-- ordered children of an instance (ids), as `get_children()` returns them -/
+def childrenOf (i : Inst) : List Nat × Inst :=
+  if usesMatcher i then
+    let (r, a) := Mfull.run i.full Mfull.orderedChildren
+    match r with
+    | .ok l => (l, { i with full := a })
+    | .error _ => ([], { i with full := a })
+  else (Msimple.ids i.kids, i)
+
+inductive SErr | valueRequired | childrenRequired | attrRequired | internal (s : String) | notElement
+def SErr.str : SErr → String
+  | .valueRequired => "err:ValueError" | .childrenRequired => "err:childrenRequired"
+  | .attrRequired => "err:attrRequired" | .internal s => "err:internal:" ++ s | .notElement => "unmodelled"
+
+/-- `_final_checks` (recursive); returns the updated state (the check rewrites matcher flags) -/
+partial def finalChecks (st : St) (id : Nat) (ic : Bool) : Except SErr Unit × St :=
+  match st.insts[id]? with
+  | none => (.error .notElement, st)
+  | some i =>
+    match i.info with
+    | none => (.error .notElement, st)
+    | some e =>
+      let own : Except SErr Unit × Inst :=
+        if !i.chk then (.ok (), i)
+        else if e.kind == 0 && i.value == .none then (.error .valueRequired, i)
+        else
+          let (r1, i1) : Except SErr Unit × Inst :=
+            if i.hasTree then
+              let (r, a) := Mfull.run i.full (Mfull.getRequiredElementNames ic)
+              let i' := { i with full := a }
+              match r with
+              | .ok [] => (.ok (), i')
+              | .ok _ => (.error .childrenRequired, i')
+              | .error er => (.error (.internal (dropPrefix er.str 9)), i')
+            else (.ok (), i)
+          match r1 with
+          | .error x => (.error x, i1)
+          | .ok _ =>
+            if e.kind == 1 then
+              if (e.akey.map tableDeclMissing).getD false then (.error (.internal "AttributeError"), i1) else
+              match e.akey.bind attrTable with
+              | some t => if (Element.missingRequired t i1.attrs).isEmpty then (.ok (), i1) else (.error .attrRequired, i1)
+              | none => (.error (.internal "AttributeError"), i1)
+            else (.ok (), i1)
+      let st1 := { st with insts := st.insts.insert id own.2 }
+      match own.1 with
+      | .error x => (.error x, st1)
+      | .ok _ =>
+        let (cs, i2) := childrenOf own.2
+        let st2 := { st1 with insts := st1.insts.insert id i2 }
+        cs.foldl (fun (acc : Except SErr Unit × St) c =>
+          match acc.1 with
+          | .error x => (.error x, acc.2)
+          | .ok _ => finalChecks acc.2 c ic) (.ok (), st2)
+
+partial def toXNode (st : St) (id : Nat) : Option Serialize.XNode × St :=
+  match st.insts[id]? with
+  | none => (none, st)
+  | some i =>
+    match i.info with
+    | none => (none, st)
+    | some e =>
+      let (cs, i2) := childrenOf i
+      let st1 := { st with insts := st.insts.insert id i2 }
+      let (kids, st2, ok) := cs.foldl (fun (acc : List Serialize.XNode × St × Bool) c =>
+        let (n, s') := toXNode acc.2.1 c
+        match n with
+        | some x => (acc.1 ++ [x], s', acc.2.2)
+        | none => (acc.1, s', false)) ([], st1, true)
+      if !ok then (none, st2) else
+      (some { name := strOf e.name, attrs := i.attrs.map fun (k, v) => (k, pyStr v),
+              text := if i.value == .none then none else some (pyStr i.value), children := kids }, st2)
+
+partial def levelOf (st : St) (id : Nat) (fuel : Nat := 10000) : Nat :=
+  match fuel, st.insts[id]? with
+  | 0, _ => 0
+  | _, none => 0
+  | f + 1, some i => match i.parent with
+    | some p => levelOf st p f + 1
+    | none => 0
+
+/-- copy.deepcopy(e): rebuilt from constructor keywords, current attributes copied, children
+    deep-copied and re-added through add_child -/
+partial def deepCopy (st : St) (id : Nat) (off : Nat) : Except String Unit × St :=
+  match st.insts[id]? with
+  | none => (.error "bad-inst", st)
+  | some i =>
+    match i.info with
+    | none => (.error "unmodelled", st)
+    | some e =>
+      let vr := valueCheck e i.value
+      if vr != .ok then (.error vr.str, st) else
+      let live := i.kwargs.filter (·.2 != .none)
+      let kw : Except Element.AErr Element.Store := live.foldl (fun acc (k, v) =>
+        match acc with
+        | .ok s => setAttrE e s k v
+        | .error x => .error x) (.ok [])
+      match kw with
+      | .error x => (.error x.str, st)
+      | .ok _ =>
+        let ni : Inst := { mkInst e i.chk i.value with attrs := i.attrs, kwargs := i.kwargs }
+        let (cs, i2) := childrenOf i
+        let st1 := { st with insts := (st.insts.insert id i2).insert (id + off) ni }
+        cs.foldl (fun (acc : Except String Unit × St) c =>
+          match acc.1 with
+          | .error x => (.error x, acc.2)
+          | .ok _ =>
+            let (r, s') := deepCopy acc.2 c off
+            match r with
+            | .error x => (.error x, s')
+            | .ok _ =>
+              match s'.insts[id + off]?, s'.insts[c + off]? with
+              | some pi, some ci =>
+                let nm := match ci.info with
+                  | some ce => ce.name
+                  | none => 0
+                if usesMatcher pi then
+                  let (rf, a') := Mfull.run pi.full (Mfull.elAddChild (c + off) nm none)
+                  match rf with
+                  | .ok _ =>
+                    let pi' := { pi with full := a', kids := pi.kids ++ [(c + off, nm)] }
+                    (.ok (), { s' with insts := (s'.insts.insert (id + off) pi').insert (c + off) { ci with parent := some (id + off) } })
+                  | .error er => (.error ("err:" ++ er.str), { s' with insts := s'.insts.insert (id + off) { pi with full := a' } })
+                else if pi.chk && !pi.hasTree then (.error "err:cannotHaveChildren", s')
+                else
+                  let pi' := { pi with kids := pi.kids ++ [(c + off, nm)] }
+                  (.ok (), { s' with insts := (s'.insts.insert (id + off) pi').insert (c + off) { ci with parent := some (id + off) } })
+              | _, _ => (.error "bad-inst", s')) (.ok (), st1)
+
+def setParent (st : St) (cid : Nat) (p : Option Nat) : St :=
+  match st.insts[cid]? with
+  | some c => { st with insts := st.insts.insert cid { c with parent := p } }
+  | none => st
 
 def step (st : St) (line : String) : St × String :=
   match (line.trimAscii.toString.splitOn " ").filter (· ≠ "") with
@@ -103,10 +310,97 @@ def step (st : St) (line : String) : St × String :=
     | some i, some t, some c =>
       match lookupT t Gen.implTemplates with
       | some p =>
-        let inst : Inst := ⟨t, p, c == 1, [], Msimple.isTame p, Mfull.newInstance p⟩
+        let inst : Inst := { info := none, p := p, hasTree := true, chk := c == 1, kids := [], tame := Msimple.isTame p,
+                             full := Mfull.newInstance p }
         ({ st with insts := st.insts.insert i inst }, "ok|ok")
       | none => (st, "bad-type")
     | _, _, _ => (st, "bad-op")
+  | "newe" :: i :: c :: chk :: v :: kws =>
+    match i.toNat?, c.toNat?, parseVal v with
+    | some i, some c, some pv =>
+      match einfo c with
+      | none => (st, "bad-class")
+      | some e =>
+        let vr := valueCheck e pv
+        if vr != .ok then (st, vr.str) else
+        let pairs := kws.filterMap fun kv => match kv.splitOn "=" with
+          | [k, v] => (parseVal v).map fun pv => (unhex k, pv)
+          | _ => none
+        let dupKey := (pairs.zipIdx.any fun ((k, _), j) =>
+          pairs.zipIdx.any fun ((k', v'), j') => j' < j && Element.normKey k' == Element.normKey k && v' != .none)
+        if dupKey then (st, "err:internal:KeyError") else
+        if e.kind == 0 && !pairs.isEmpty then (st, "err:wrongAttribute") else
+        if e.kind == 1 && (e.akey.map tableBroken).getD true && !pairs.isEmpty then (st, "unmodelled") else
+        let live := pairs.filter (·.2 != .none)
+        let r : Except Element.AErr Element.Store := live.foldl (fun acc (k, v) =>
+          match acc with
+          | .ok s => setAttrE e s k v
+          | .error x => .error x) (.ok [])
+        match r with
+        | .error x => (st, x.str)
+        | .ok s =>
+          let inst := { mkInst e (chk == "1") pv with attrs := s, kwargs := pairs }
+          ({ st with insts := st.insts.insert i inst }, "ok")
+    | _, _, _ => (st, "bad-op")
+  | ["setval", i, v] =>
+    match i.toNat?, parseVal v with
+    | some i, some pv =>
+      match st.insts[i]? with
+      | some inst =>
+        match inst.info with
+        | some e =>
+          let vr := valueCheck e pv
+          if vr != .ok then (st, vr.str)
+          else ({ st with insts := st.insts.insert i { inst with value := pv } }, "ok")
+        | none => (st, "unmodelled")
+      | none => (st, "bad-inst")
+    | _, _ => (st, "bad-op")
+  | ["attr", i, k, v] =>
+    match i.toNat?, parseVal v with
+    | some i, some pv =>
+      match st.insts[i]? with
+      | some inst =>
+        match inst.info with
+        | some e =>
+          let key := unhex k
+          if Element.reserved reservedProps key || Element.isChildShortcut key then (st, "reserved")
+          else if pv != .none && e.kind == 1 && (e.akey.map tableDeclMissing).getD true then (st, "err:AttributeError")
+          else if pv != .none && (e.akey.bind fun t => brokenRowError t key).isSome then
+            (st, "err:internal:" ++ ((e.akey.bind fun t => brokenRowError t key).getD ""))
+          else match setAttrE e inst.attrs key pv with
+            | .ok s => ({ st with insts := st.insts.insert i { inst with attrs := s } }, "ok")
+            | .error .wrongAttribute => (st, "err:AttributeError")
+            | .error x => (st, x.str)
+        | none => (st, "unmodelled")
+      | none => (st, "bad-inst")
+    | _, _ => (st, "bad-op")
+  | ["getattr", i, k] =>
+    match i.toNat? with
+    | some i =>
+      match st.insts[i]? with
+      | some inst =>
+        match inst.info with
+        | some e =>
+          let key := unhex k
+          if Element.reserved reservedProps key || key.startsWith "xml" then (st, "reserved")
+          else if e.kind == 0 then (st, "unmodelled")
+          else match e.akey.bind attrTable with
+            | some t => (match Element.getAttr t inst.attrs key with
+              | .val v => (st, "val:" ++ encVal v)
+              | .none => (st, "val:none")
+              | .attributeError => (st, "err:AttributeError"))
+            | none => (st, "unmodelled")
+        | none => (st, "unmodelled")
+      | none => (st, "bad-inst")
+    | none => (st, "bad-op")
+  | ["attrs", i] =>
+    match i.toNat? with
+    | some i =>
+      match st.insts[i]? with
+      | some inst => (st, "a=" ++ ";".intercalate (inst.attrs.map fun (k, v) => tohex k ++ "=" ++ encVal v) ++
+                          " v=" ++ encVal inst.value)
+      | none => (st, "bad-inst")
+    | none => (st, "bad-op")
   | "add" :: i :: cid :: n :: rest =>
     match i.toNat?, cid.toNat?, n.toNat? with
     | some i, some cid, some n =>
@@ -114,17 +408,20 @@ def step (st : St) (line : String) : St × String :=
       | none => (st, "bad-inst")
       | some inst =>
         if !inst.chk then
-          ({ st with insts := st.insts.insert i { inst with kids := inst.kids ++ [(cid, n)] } }, "ok|ok")
+          let st' := { st with insts := st.insts.insert i { inst with kids := inst.kids ++ [(cid, n)] } }
+          (setParent st' cid (some i), "ok|ok")
+        else if !inst.hasTree then (st, "err:cannotHaveChildren|err:cannotHaveChildren")
         else
           let fwd := parseFwd rest
           let (rf, a') := Mfull.run inst.full (Mfull.elAddChild cid n fwd)
           let inst := { inst with full := a' }
-          if !inst.tame then ({ st with insts := st.insts.insert i inst }, both (resF rf) "-")
+          let st1 := if rf.toBool then setParent st cid (some i) else st
+          if !inst.tame then ({ st1 with insts := st1.insts.insert i inst }, both (resF rf) "-")
           else
             match Msimple.add inst.p inst.kids cid n fwd with
-            | .ok k => ({ st with insts := st.insts.insert i { inst with kids := k } }, both (resF rf) "ok")
-            | .error .unmodelled => ({ st with insts := st.insts.insert i { inst with tame := false } }, both (resF rf) "-")
-            | .error e => ({ st with insts := st.insts.insert i inst }, both (resF rf) ("err:" ++ e.str))
+            | .ok k => ({ st1 with insts := st1.insts.insert i { inst with kids := k } }, both (resF rf) "ok")
+            | .error .unmodelled => ({ st1 with insts := st1.insts.insert i { inst with tame := false } }, both (resF rf) "-")
+            | .error e => ({ st1 with insts := st1.insts.insert i inst }, both (resF rf) ("err:" ++ e.str))
     | _, _, _ => (st, "bad-op")
   | ["rm", i, cid] =>
     match i.toNat?, cid.toNat? with
@@ -132,17 +429,18 @@ def step (st : St) (line : String) : St × String :=
       match st.insts[i]? with
       | none => (st, "bad-inst")
       | some inst =>
-        if !inst.chk then
+        if !usesMatcher inst then
           match Msimple.remove inst.kids cid with
-          | .ok k => ({ st with insts := st.insts.insert i { inst with kids := k } }, "ok|ok")
+          | .ok k => (setParent { st with insts := st.insts.insert i { inst with kids := k } } cid none, "ok|ok")
           | .error e => (st, both ("err:" ++ e.str) ("err:" ++ e.str))
         else
           let (rf, a') := Mfull.run inst.full (Mfull.elRemove cid)
           let inst := { inst with full := a' }
-          if !inst.tame then ({ st with insts := st.insts.insert i inst }, both (resF rf) "-")
+          let st1 := if rf.toBool then setParent st cid none else st
+          if !inst.tame then ({ st1 with insts := st1.insts.insert i inst }, both (resF rf) "-")
           else match Msimple.remove inst.kids cid with
-            | .ok k => ({ st with insts := st.insts.insert i { inst with kids := k } }, both (resF rf) "ok")
-            | .error e => ({ st with insts := st.insts.insert i inst }, both (resF rf) ("err:" ++ e.str))
+            | .ok k => ({ st1 with insts := st1.insts.insert i { inst with kids := k } }, both (resF rf) "ok")
+            | .error e => ({ st1 with insts := st1.insts.insert i inst }, both (resF rf) ("err:" ++ e.str))
     | _, _ => (st, "bad-op")
   | ["repl", i, old, new, n] =>
     match i.toNat?, old.toNat?, new.toNat?, n.toNat? with
@@ -150,19 +448,20 @@ def step (st : St) (line : String) : St × String :=
       match st.insts[i]? with
       | none => (st, "bad-inst")
       | some inst =>
-        if !inst.chk then
+        if !usesMatcher inst then
           match inst.kids.find? (·.1 == old) with
           | none => (st, "err:notAChild|err:notAChild")
           | some _ =>
-            let inst' := { inst with kids := inst.kids.map (fun c => if c.1 == old then (new, n) else c) }
-            ({ st with insts := st.insts.insert i inst' }, "ok|ok")
+            let inst' := { inst with kids := Msimple.replFirst old (new, n) inst.kids }
+            (setParent (setParent { st with insts := st.insts.insert i inst' } new (some i)) old none, "ok|ok")
         else
           let (rf, a') := Mfull.run inst.full (Mfull.elReplace old new n)
           let inst := { inst with full := a' }
-          if !inst.tame then ({ st with insts := st.insts.insert i inst }, both (resF rf) "-")
+          let st1 := if rf.toBool then setParent (setParent st new (some i)) old none else st
+          if !inst.tame then ({ st1 with insts := st1.insts.insert i inst }, both (resF rf) "-")
           else match Msimple.replace inst.kids old new n with
-            | .ok k => ({ st with insts := st.insts.insert i { inst with kids := k } }, both (resF rf) "ok")
-            | .error e => ({ st with insts := st.insts.insert i inst }, both (resF rf) ("err:" ++ e.str))
+            | .ok k => ({ st1 with insts := st1.insts.insert i { inst with kids := k } }, both (resF rf) "ok")
+            | .error e => ({ st1 with insts := st1.insts.insert i inst }, both (resF rf) ("err:" ++ e.str))
     | _, _, _, _ => (st, "bad-op")
   | ["obs", i] =>
     match i.toNat? with
@@ -170,7 +469,7 @@ def step (st : St) (line : String) : St × String :=
       match st.insts[i]? with
       | none => (st, "bad-inst")
       | some inst =>
-        if !inst.chk then (st, both (obsSimple inst) (obsSimple inst))
+        if !usesMatcher inst then (st, both (obsSimple inst) (obsSimple inst))
         else
           let (s, a') := obsFull inst.full
           ({ st with insts := st.insts.insert i { inst with full := a' } },
@@ -182,7 +481,7 @@ def step (st : St) (line : String) : St × String :=
       match st.insts[i]? with
       | none => (st, "bad-inst")
       | some inst =>
-        if !inst.chk then (st, "r=|r=")
+        if !usesMatcher inst then (st, "r=|r=")
         else
           let (r, a') := Mfull.run inst.full (Mfull.getRequiredElementNames (ic == 1))
           let rs := match r with
@@ -192,14 +491,13 @@ def step (st : St) (line : String) : St × String :=
             both ("r=" ++ rs) (if inst.tame then "r=" ++ joinNat (Msimple.required inst.p inst.kids) else "-"))
     | _, _ => (st, "bad-op")
   | ["probe", i] =>
-    -- acceptance of one more child of every symbol of the alphabet (on throw-away copies)
     match i.toNat? with
     | some i =>
       match st.insts[i]? with
       | none => (st, "bad-inst")
       | some inst =>
         let alpha := (dedup inst.p.leaves)
-        if !inst.chk then (st, both ("p=" ++ ";".intercalate (alpha.map fun n => s!"{n}:ok:")) "-") else
+        if !usesMatcher inst then (st, both ("p=" ++ ";".intercalate (alpha.map fun n => s!"{n}:ok:")) "-") else
         let partsF := alpha.map (fun n =>
           let (r, a1) := Mfull.run inst.full (Mfull.elAddChild 1000000 n none)
           match r with
@@ -215,8 +513,51 @@ def step (st : St) (line : String) : St × String :=
           | .error e => s!"{n}:err:{e.str}:")
         (st, both ("p=" ++ ";".intercalate partsF) (if inst.tame then "p=" ++ ";".intercalate partsS else "-"))
     | none => (st, "bad-op")
+  | ["tostr", i, ic] =>
+    match i.toNat? with
+    | some i =>
+      match st.insts[i]? with
+      | none => (st, "bad-inst")
+      | some inst =>
+        let (r, st1) := if inst.chk then finalChecks st i (ic == "1") else (.ok (), st)
+        match r with
+        | .error e => (st1, e.str)
+        | .ok _ =>
+          let (x, st2) := toXNode st1 i
+          match x with
+          | some n => (st2, "ok:" ++ tohex (Serialize.toString (levelOf st2 i) n))
+          | none => (st2, "unmodelled")
+    | none => (st, "bad-op")
+  | ["copy", i, off] =>
+    match i.toNat?, off.toNat? with
+    | some i, some off =>
+      let (r, st') := deepCopy st i off
+      match r with
+      | .ok _ => (st', "ok")
+      | .error e => (st', e)
+    | _, _ => (st, "bad-op")
+  | ["val", k, v] =>
+    match k.toNat?, parseVal v with
+    | some k, some pv =>
+      match lookupDef k Gen.simpleDefs with
+      | some d =>
+        let r := validate Gen.valuesEnv 6 d pv
+        (st, if r == .ok then "ok:" ++ tohex (pyStr pv) else r.str)
+      | none => (st, "bad-type")
+    | _, _ => (st, "bad-op")
+  | ["elemval", c, v] =>
+    match c.toNat?, parseVal v with
+    | some c, some pv =>
+      match einfo c with
+      | some e =>
+        let r := valueCheck e pv
+        (st, if r == .ok then "ok:" ++ tohex (pyStr pv) else r.str)
+      | none => (st, "bad-class")
+    | _, _ => (st, "bad-op")
+  | ["token", h] => (st, tohex (cleanedToken (unhex h)))
+  | ["esctext", h] => (st, tohex (Serialize.escText (unhex h)))
+  | ["escattr", h] => (st, tohex (Serialize.escAttr (unhex h)))
   | ["accepts", t, w] =>
-    -- verified content-model oracle on the *spec* particle: word as comma separated name indices
     match t.toNat? with
     | some t =>
       match lookupT t Gen.specTemplates with
@@ -225,30 +566,6 @@ def step (st : St) (line : String) : St × String :=
         (st, if p.accepts ws then "yes" else "no")
       | none => (st, "bad-type")
     | none => (st, "bad-op")
-  | ["val", k, v] =>
-    match k.toNat?, parseVal v with
-    | some k, some pv =>
-      match Values.lookupDef k Gen.simpleDefs with
-      | some d =>
-        let r := Values.validate Gen.valuesEnv 6 d pv
-        (st, if r == .ok then "ok:" ++ tohex (Values.pyStr pv) else r.str)
-      | none => (st, "bad-type")
-    | _, _ => (st, "bad-op")
-  | ["elemval", c, v] =>
-    -- XMLElement.value_ = v  for the element class c (value validated by TYPE(v))
-    match c.toNat?, parseVal v with
-    | some c, some pv =>
-      match Gen.elemValueTypes.find? (·.1 == c) with
-      | some (_, kind, tk) =>
-        if kind == 2 then (st, "ok:" ++ tohex (Values.pyStr pv))
-        else match Values.lookupDef tk Gen.simpleDefs with
-          | some d =>
-            let r := Values.validate Gen.valuesEnv 6 d pv
-            (st, if r == .ok then "ok:" ++ tohex (Values.pyStr pv) else r.str)
-          | none => (st, "bad-type")
-      | none => (st, "bad-class")
-    | _, _ => (st, "bad-op")
-  | ["token", h] => (st, tohex (Values.cleanedToken (unhex h)))
   | ["tame", t] =>
     match t.toNat? with
     | some t => match lookupT t Gen.implTemplates with
